@@ -319,3 +319,11 @@ def recovery_unconditional(ctx):
                       're-encapsulation' % (c.ln, [ln for _b, ln in other][:2]),
                       'no dominating condition reads the recovery state', c.where())
     ctx.floor(n, 1, 'right insertions in full_decaps')
+
+
+@rule('C18', 'transcript', configs=('default', 'p256'))
+def transcript(ctx):
+    """The master key opens what encaps produced: full_decaps recomputes T and U over the same inputs, in the same order, as the
+    encapsulating side (C01.transcript) — otherwise no right is ever recovered and every recaps fails."""
+    from . import c01
+    c01.transcript(ctx)
